@@ -60,6 +60,7 @@ class ClassTable:
         "IndexError": "LookupError",
         "ValueError": "Exception",
         "UnicodeError": "ValueError",
+        "JSONDecodeError": "ValueError",
         "UnicodeDecodeError": "UnicodeError",
         "UnicodeEncodeError": "UnicodeError",
         "TypeError": "Exception",
